@@ -723,7 +723,7 @@ def classify(case: dict) -> tuple[bool, list[str]]:
 
 
 def shards(tier: str, seed: int) -> list[dict]:
-    n_sh, per = (16, 150) if tier == "quick" else (48, 1500)
+    n_sh, per = (16, 150) if tier == "quick" else (48, 1000)
     return [{"seed": seed * 1000 + i, "n": per} for i in range(n_sh)]
 
 
